@@ -36,6 +36,13 @@ def scripted_exc(msg='scripted', salt=0, empty=None):
     if empty or (empty is None and (_exc_counter[0] + salt) % 3 == 0):
         # an exception without a message (a bare assert, `raise PermissionError()`, the TimeoutError of asyncio.wait_for): str(e) == ''
         return AssertionError() if cls is RuntimeError else cls()
+    if (_exc_counter[0] + salt) % 4 == 1:
+        # exceptions whose first argument is not text: errno-style OSErrors from I/O done by the handler, a KeyError on a non-string key
+        if issubclass(cls, OSError) and cls not in (QuotaExceeded, UpstreamFailure):
+            return cls(13, msg)
+        if cls is KeyError:
+            return KeyError(7)
+        return cls(msg, 7)
     return cls(msg)
 
 
